@@ -1260,3 +1260,46 @@ V("C16", "oneshot-without-finally", I,
   ("                    self._proc.oneshot_enter()\n                    yield\n                finally:\n",
    "                    self._proc.oneshot_enter()\n                    yield\n                except ZeroDivisionError:\n                    pass\n                if True:\n"),
   "fires:C16.R1")
+
+# ----------------------------------------------------------------- my own adversarial batch
+V("C01", "nice-value-clamped", L,
+  ("        return cext_posix.setpriority(self.pid, value)",
+   "        return cext_posix.setpriority(self.pid, max(-20, min(19, value)))"), "fires:C01.R4")
+V("C02", "ident-start-rounded", I,
+  ("                return (self.pid, self._proc.create_time(monotonic=True))",
+   "                return (self.pid, round(self._proc.create_time(monotonic=True), 1))"),
+  "fires:C02.R3")
+V("C03", "adv-netconn-no-liveness", L,
+  ("        ret = _net_connections.retrieve(kind, self.pid)\n        self._raise_if_not_alive()\n        return ret",
+   "        ret = _net_connections.retrieve(kind, self.pid)\n        return ret"), "fires:")
+V("C03", "adv-zombie-letter-lowercase", L,
+  ("            return status == b\"Z\"", "            return status == b\"z\""), "fires:")
+V("C06", "adv-ctxsw-swapped", L,
+  ("        return _common.pctxsw(int(ctxsw[0]), int(ctxsw[1]))",
+   "        return _common.pctxsw(int(ctxsw[1]), int(ctxsw[0]))"), "fires:")
+V("C06", "adv-uids-saved-effective-swapped", L,
+  ("        return _common.puids(int(real), int(effective), int(saved))",
+   "        return _common.puids(int(real), int(saved), int(effective))"), "fires:")
+V("C12", "adv-name-truncation-threshold", I,
+  ("        if POSIX and len(name) >= 15:", "        if POSIX and len(name) > 15:"), "fires:")
+V("C14", "adv-io-chars-swapped", L,
+  ("fields[b'rchar'],  # read chars\n                    fields[b'wchar'],  # write chars",
+   "fields[b'wchar'],  # read chars\n                    fields[b'rchar'],  # write chars"), "fires:")
+V("C18", "adv-rlimit-pair-lt2", L,
+  ("                    if len(limits) != 2:", "                    if len(limits) < 2:"), "fires:")
+V("C19", "adv-cpu-stats-swapped", L,
+  ("            elif line.startswith(b'intr'):\n                interrupts = int(line.split()[1])\n            elif line.startswith(b'softirq'):\n                soft_interrupts = int(line.split()[1])",
+   "            elif line.startswith(b'intr'):\n                soft_interrupts = int(line.split()[1])\n            elif line.startswith(b'softirq'):\n                interrupts = int(line.split()[1])"),
+  "fires:")
+V("C19", "adv-boot-time-wrong-key", L,
+  ("            if line.startswith(b'btime'):", "            if line.startswith(b'processes'):"), "fires:")
+V("C04", "adv-linux-pids-nonzero", L,
+  ("    return [int(x) for x in os.listdir(path) if x.isdigit()]",
+   "    return [int(x) for x in os.listdir(path) if x.isdigit() and int(x) > 1]"), "fires:")
+V("C09", "adv-storage-filter-inverted", L,
+  ("        if not perdisk and not is_storage_device(name):", "        if not perdisk and is_storage_device(name):"), "fires:")
+V("C13", "adv-memory-percent-check-after", I,
+  ("        if memtype not in valid_types:", "        if memtype in ('?',):"), "fires:")
+V("C07", "adv-percpu-includes-aggregate", L,
+  ("            if line.startswith(b'cpu'):\n                values = line.split()",
+   "            if line.startswith(b'c'):\n                values = line.split()"), "fires:")
